@@ -87,7 +87,18 @@ def f_term(it, v):
     raise Unsupported(f"float term of {type(v).__name__}")
 
 
+def bv_int(it, bv):
+    """SInt whose term is the signed value of a 64-bit vector (remembered for int->fp)."""
+    t = z3.BV2Int(bv, True)
+    it.ex.bv_of[t.get_id()] = (t, bv)
+    return SInt(t)
+
+
 def int_to_fp(it, t):
+    # BV2Int(x) produced by a bit-vector backed input or by int(float): stay in BV
+    ent = it.ex.bv_of.get(t.get_id())
+    if ent is not None:
+        return z3.fpSignedToFP(RNE, ent[1], F64)
     it.ex.check(z3.And(t > -(2 ** 62), t < 2 ** 62), "fp-int-in-64bit", site="int->float")
     return z3.fpSignedToFP(RNE, z3.Int2BV(t, 64), F64)
 
@@ -213,7 +224,7 @@ def float_to_int(it, v):
     if not it.decide(z3.And(z3.fpLT(t, big), z3.fpGT(t, z3.fpNeg(big)))):
         raise Unsupported("int(float) beyond 2^62 in fp mode")
     bv = z3.fpToSBV(RTZ, t, z3.BitVecSort(64))
-    return mk_int(z3.BV2Int(bv, is_signed=True))
+    return bv_int(it, bv)
 
 
 def float_round(it, v, nd=None):
@@ -241,7 +252,7 @@ def float_round(it, v, nd=None):
     if not it.decide(z3.And(z3.fpLT(t, big), z3.fpGT(t, z3.fpNeg(big)))):
         raise Unsupported("round(float) beyond 2^62 in fp mode")
     ri = z3.fpRoundToIntegral(RNE, t)
-    return mk_int(z3.BV2Int(z3.fpToSBV(RTZ, ri, z3.BitVecSort(64)), is_signed=True))
+    return bv_int(it, z3.fpToSBV(RTZ, ri, z3.BitVecSort(64)))
 
 
 # ------------------------------------------------------------------ ints
@@ -270,9 +281,194 @@ def int_and_const(t, mask):
     return z3.Sum(parts) if len(parts) > 1 else parts[0]
 
 
+# ---- bit-field bookkeeping -----------------------------------------------------------
+# A term may be registered as a sum of disjoint bit fields  sum_i f_i * 2^shift_i  with
+# 0 <= f_i < 2^width_i *proved* under the path condition.  Masks and shifts that select
+# whole fields are then answered structurally (this is the "fields do not overlap"
+# argument of the packed formats); everything else falls back to div/mod arithmetic.
+_WIDTHS = [1, 2, 3, 4, 5, 6, 7, 8, 10, 12, 14, 16, 18, 20, 24, 32, 40, 48, 56, 64]
+
+
+def prove(it, cond):
+    """pc |- cond ?  (short budget; False when unknown)"""
+    ex = it.ex
+    ms = ex._model_says(cond)
+    if ms is False:
+        return False
+    r = ex._query(z3.Not(cond))
+    return r == z3.unsat
+
+
+def width_of(it, t):
+    t = z3.simplify(t)
+    if z3.is_int_value(t):
+        v = t.as_long()
+        return v.bit_length() if v >= 0 else None
+    key = ("w", t.get_id(), tuple(it.ex.prefix[: it.ex.pos]))
+    if key in it.ex.bitf_cache:
+        return it.ex.bitf_cache[key]
+    w = None
+    if prove(it, t >= 0):
+        for cand in _WIDTHS:
+            if prove(it, t < 2 ** cand):
+                w = cand
+                break
+    it.ex.bitf_cache[key] = w
+    return w
+
+
+def fields_of(it, v, probe=False):
+    """-> list of (shift, width, term, origin) or None"""
+    if isinstance(v, (bool, int)):
+        v = int(v)
+        if v < 0:
+            return None
+        return [(0, max(v.bit_length(), 1), z3.IntVal(v), None)] if v else []
+    t = int_term(v)
+    ent = it.ex.bitf.get(t.get_id())
+    if ent is not None:
+        return ent[1]
+    if probe:
+        w = width_of(it, t)
+        if w is not None:
+            return [(0, w, t, None)]
+    return None
+
+
+def reg_fields(it, t, fields):
+    fields = sorted(fields, key=lambda f: f[0])
+    it.ex.bitf[t.get_id()] = (t, fields)
+
+
+def _disjoint(fields):
+    fs = sorted(fields, key=lambda f: f[0])
+    for x, y in zip(fs, fs[1:]):
+        if x[0] + x[1] > y[0]:
+            return False
+    return True
+
+
+def _merge_adjacent(it, fields):
+    """Merge neighbouring extractions of one source:  (src>>a)%2^w1 and (src>>(a+w1))%2^w2."""
+    fs = sorted(fields, key=lambda f: f[0])
+    out = []
+    for f in fs:
+        if out:
+            p = out[-1]
+            if p[3] is not None and f[3] is not None and p[3][0].eq(f[3][0]) \
+                    and p[0] + p[1] == f[0] and p[3][1] + p[1] == f[3][1]:
+                src, lo = p[3]
+                w = p[1] + f[1]
+                term = z3.simplify((src / (2 ** lo)) % (2 ** w)) if lo else z3.simplify(src % (2 ** w))
+                out[-1] = (p[0], w, term, (src, lo))
+                continue
+        out.append(f)
+    return out
+
+
+def fields_sum_term(it, fields):
+    """The int term denoted by a field list; a single full-source extraction collapses."""
+    fields = _merge_adjacent(it, fields)
+    if len(fields) == 1:
+        sh, w, term, origin = fields[0]
+        if origin is not None and origin[1] == 0 and sh == 0:
+            src = origin[0]
+            sw = width_of(it, src)
+            if sw is not None and sw <= w:
+                return src, fields
+        return (term * (2 ** sh) if sh else term), fields
+    if not fields:
+        return z3.IntVal(0), fields
+    return z3.Sum([f[2] * (2 ** f[0]) if f[0] else f[2] for f in fields]), fields
+
+
+def _bf_result(it, fields):
+    t, fields = fields_sum_term(it, fields)
+    t = z3.simplify(t)
+    if z3.is_int_value(t):
+        return t.as_long()
+    if t.get_id() not in it.ex.bitf:
+        reg_fields(it, t, fields)
+    return SInt(t)
+
+
+def try_bitfield_op(it, op, a, b):
+    """Structural answer for << >> & | + on registered bit fields, or None."""
+    if isinstance(op, ast.LShift) and isinstance(b, int) and not isinstance(b, bool) and b >= 0:
+        fa = fields_of(it, a, probe=True)
+        if fa is None:
+            return None
+        return _bf_result(it, [(s + b, w, t, o) for s, w, t, o in fa])
+    if isinstance(op, ast.RShift) and isinstance(b, int) and not isinstance(b, bool) and b >= 0:
+        fa = fields_of(it, a)
+        if fa is None:
+            return None
+        out = []
+        for s, w, t, o in fa:
+            if s >= b:
+                out.append((s - b, w, t, o))
+            elif s + w <= b:
+                continue
+            else:
+                return None
+        return _bf_result(it, out)
+    if isinstance(op, (ast.Add, ast.BitOr)):
+        fa = fields_of(it, a)
+        fb = fields_of(it, b)
+        if fa is None and fb is None:
+            return None
+        if fa is None:
+            fa = fields_of(it, a, probe=True)
+        if fb is None:
+            fb = fields_of(it, b, probe=True)
+        if fa is None or fb is None or not _disjoint(fa + fb):
+            return None
+        return _bf_result(it, fa + fb)
+    if isinstance(op, ast.BitAnd):
+        if isinstance(a, int) and not isinstance(a, bool):
+            a, b = b, a
+        if not (isinstance(b, int) and not isinstance(b, bool) and b >= 0):
+            return None
+        fa = fields_of(it, a)
+        if fa is None:
+            # plain source: a mask run is an extraction of the source
+            if isinstance(a, SInt) and b > 0:
+                runs = _mask_runs(b)
+                src = a.t
+                out = []
+                for lo, hi in runs:
+                    term = z3.simplify((src / (2 ** lo)) % (2 ** (hi - lo))) if lo else z3.simplify(src % (2 ** (hi - lo)))
+                    out.append((lo, hi - lo, term, (src, lo)))
+                t = z3.simplify(int_and_const(src, b))
+                if z3.is_int_value(t):
+                    return t.as_long()
+                reg_fields(it, t, out)
+                return SInt(t)
+            return None
+        out = []
+        for s, w, t, o in fa:
+            inside = all((b >> i) & 1 for i in range(s, s + w))
+            outside = not any((b >> i) & 1 for i in range(s, s + w))
+            if inside:
+                out.append((s, w, t, o))
+            elif outside:
+                continue
+            else:
+                return None
+        return _bf_result(it, out)
+    return None
+
+
 def int_binop(it, op, a, b):
     if not (isinstance(a, (SInt, SBool)) or isinstance(b, (SInt, SBool))):
         raise Unsupported("int_binop on concrete")  # caller handles concrete
+    if isinstance(op, (ast.LShift, ast.RShift, ast.BitAnd, ast.BitOr, ast.Add)) and not isinstance(a, SBool) and not isinstance(b, SBool):
+        if isinstance(op, ast.Add) and not (fields_known(it, a) or fields_known(it, b)):
+            pass
+        else:
+            r = try_bitfield_op(it, op, a, b)
+            if r is not None:
+                return r
     ta, tb = int_term(a), int_term(b)
     if isinstance(op, ast.Add):
         return mk_int(ta + tb)
@@ -370,6 +566,10 @@ def _bitop_sym(it, op, ta, tb, width=64):
         else:
             bits.append(z3.If(x != y, 2 ** i, 0))
     return mk_int(z3.Sum(bits))
+
+
+def fields_known(it, v):
+    return isinstance(v, SInt) and v.t.get_id() in it.ex.bitf
 
 
 def num_order(it, op, a, b):
